@@ -75,6 +75,12 @@ def check_case(case, ctx):
     name = sandbox.unique_name('vpc08')
     with sandbox.scratch('c08') as d:
         path = os.path.join(d, name + '.py')
+        if case.get('rewritten'):
+            # the path held another layout a moment ago and was collected then: positions are those of the file as it is now
+            with open(path, 'w') as f:
+                f.write('\n'.join(modules.decoy_lines(lines)) + '\n')
+            with sandbox.quiet():
+                list(core.parse_doctestables(path, style=STYLES[0], analysis='static'))
         with open(path, 'w') as f:
             f.write('\n'.join(lines) + '\n')
         try:
@@ -200,7 +206,11 @@ def _fail_kind(lines, x):
 @composite
 def module_strategy(D, max_items):
     m = modules.build_module(D, importable=True, fail_kinds=FAIL_KINDS, max_items=max_items, disabled_blocks=True)
-    return modules.case_of(m)
+    case = modules.case_of(m)
+    case['rewritten'] = D.chance(1, 4)
+    if case['rewritten']:
+        case['features'] = sorted(set(case['features']) | {'path_rewritten_after_collection'})
+    return case
 
 
 def _check(case, ctx):
